@@ -18,7 +18,7 @@ def main():
     else:
         roots, lem = list(ex.functions), [it[0] for it in lib.items if it[1] == "proof"]
     fns, items = extract.cone(ex, lib, roots, lem)
-    open(out, "w").write(ex.render(keep_fns=fns, lib_items=[i[2] for i in items]))
+    open(out, "w").write(ex.render(keep_fns=fns, lib_items=items, canary=bool(os.environ.get("CANARY")))[0])
     t0 = time.time()
     p = subprocess.run(["verus", out, "--multiple-errors", "5", "--triggers-mode", "silent", "--rlimit", rlimit, "--output-json", "--time", "--num-threads", "16"],
                        capture_output=True, text=True, cwd="/var/tmp/vt")
